@@ -13,6 +13,7 @@ import Np.Model.CallArr
 import Np.Model.Align
 import Np.Model.Construct
 import Np.Model.RoutingTables
+import Np.Model.Maps
 /-! line-protocol driver: one JSON case per line on stdin, the model's answer per line on stdout -/
 open Lean Np Np.Shape
 
@@ -321,6 +322,50 @@ def runCase (j : Json) : E Json := do
       | .forward impl => Json.mkObj [("status", "ok"), ("kind", "forward"), ("impl", impl)]
       | .featureNotSupported => showErr .featureNotSupported
       | .otherError e => Json.mkObj [("status", "err"), ("kind", e)])
+  | "gather" =>
+    let ops ← (← jList (← j.getObjVal? "polys")).mapM parseArr
+    let shape ← jNats (← j.getObjVal? "shape")
+    let idx ← jNats (← j.getObjVal? "index")
+    pure (showArr (gatherOp rc rn ops shape idx))
+  | "linear" =>
+    let a ← parseArr (← j.getObjVal? "a")
+    let shape ← jNats (← j.getObjVal? "shape")
+    let W ← (← jList (← j.getObjVal? "W")).mapM fun row => do
+      (← jList row).mapM fun jw => do
+        match ← jList jw with
+        | [jj, w] => pure ((← jNat jj), (← parseCoef w))
+        | _ => throw "bad weight"
+    pure (showArr (linearOp rc rn a shape W))
+  | "bilinear" =>
+    let a ← parseArr (← j.getObjVal? "a")
+    let b ← parseArr (← j.getObjVal? "b")
+    let shape ← jNats (← j.getObjVal? "shape")
+    let pairs ← (← jList (← j.getObjVal? "pairs")).mapM fun pr => do
+      match ← jList pr with
+      | [x, y] => pure ((← jNats x), (← jNats y))
+      | _ => throw "bad pair"
+    match bilinearOp rc rn a b shape pairs with
+    | some r => pure (showArr r)
+    | none => pure (showErr .uninit)
+  | "prodgroups" =>
+    let a ← parseArr (← j.getObjVal? "a")
+    let shape ← jNats (← j.getObjVal? "shape")
+    let groups ← jNatRows (← j.getObjVal? "groups")
+    match prodOp rc rn a shape groups with
+    | some r => pure (showArr r)
+    | none => pure (showErr .uninit)
+  | "det" =>
+    let a ← parseArr (← j.getObjVal? "a")
+    let n ← jNat (← j.getObjVal? "n")
+    let batch ← jNats (← j.getObjVal? "batch")
+    -- entry (r, c) over the batch positions: flat index = batchpos * n * n + r * n + c  (1-based for gatherFill)
+    let bsize := size batch
+    let entry := fun (r c : Nat) =>
+      mapCoef (gatherFill bsize ((List.range bsize).map fun k => k * n * n + r * n + c + 1)) a.poly
+    let rows := (List.range n).map fun r => (List.range n).map fun c => entry r c
+    match detPoly rc rn n rows with
+    | some d => pure (showArr ⟨batch, d⟩)
+    | none => pure (showErr .uninit)
   | _ => throw s!"bad-op {op}"
 
 def step (line : String) : String :=
